@@ -64,7 +64,7 @@ c.may_raise.append(("Exception", None))
 KILLED_REAPED = "G.killed[process.pid] and G.joined[process]"
 OTHERS = "forall(Ref('Process'), lambda q: implies(old(G.joined[q]), G.joined[q])) and forall(Int, lambda k: implies(old(G.killed[k]), G.killed[k]))"
 
-c = M.contract("kill_process_tree", props=["C02", "C06"])
+c = M.contract("kill_process_tree", props=["C02", "C06", "C20"])
 c.param("process", T.Ref("Process")).param("use_psutil", T.Bool, default=VBool(True))
 c.touch("psutil")
 c.ensures("kill/root-killed-and-reaped", KILLED_REAPED)
@@ -76,7 +76,7 @@ c.raises("kill/lookup-error-tolerated", "ProcessLookupError", post="G.killed[pro
 c.raises_only("kill/only-lookup-error")
 c.modifies("G.killed", "G.joined", "G.ps_killed", "G.killed", "G.pid_live")
 
-c = M.contract("_kill_process_tree_with_psutil", props=["C02", "C06"])
+c = M.contract("_kill_process_tree_with_psutil", props=["C02", "C06", "C20"])
 c.param("process", T.Ref("Process"))
 c.touch("psutil")
 c.requires("psutil-available", "psutil is not None")
@@ -94,7 +94,7 @@ i.inv("reaped-only-grow", "forall(Ref('Process'), lambda q: implies(old(G.joined
 i.iter_post("every-listed-descendant-gets-a-kill", "log_count('ps_kill') + log_count('ps_kill_gone') == 1")
 c.note("the early return on NoSuchProcess at listing means the pid is already reaped (trusted); order among descendants is abstracted")
 
-c = M.contract("_kill_process_tree_without_psutil", props=["C02", "C06"])
+c = M.contract("_kill_process_tree_without_psutil", props=["C02", "C06", "C20"])
 c.param("process", T.Ref("Process"))
 c.ensures("kill-tree/root-killed-and-reaped", KILLED_REAPED)
 c.ensures("kill-tree/monotone", OTHERS)
